@@ -150,6 +150,25 @@ def layout(repo_dir):
     for name, (l, s, r, v), d in rows:
         out.append('    (%d, %d, %d, %d), // %s' % (0 if l is None else enc(l), 0 if s is None else enc(s), 0 if r is None else enc(r), d, name))
     out.append('];')
+    # the rows whose direction the library refines through maximize when likely subtags are enabled
+    # (script-less identifiers of a language CLDR lists as right-to-left somewhere)
+    need = [(name, t, d) for name, t, d in rows if t[1] is None and t[0] in rtl_langs]
+    # ... with the script CLDR's likelySubtags gives for (language, region): the (language, region) entry, else the
+    # language entry (C06's cascade restricted to script-less input, computed here directly from the JSON)
+    ls = json.load(open(os.path.join(repo_dir, 'unic-langid-impl', 'data', 'likelySubtags.json')))['supplemental']['likelySubtags']
+    tab = {}
+    for k, v in ls.items():
+        kl, ks, kr, _ = split_lid(k)
+        tab[(kl, ks, kr)] = split_lid(v)
+    out.append('// (language, 0, region, CLDR direction, likely script or 0)')
+    out.append('pub static EXPECTED_LAYOUT_ROWS_LIKELY: [(u64, u32, u32, u8, u32); %d] = [' % len(need))
+    for name, (l, s, r, v), d in need:
+        e = tab.get((l, None, r)) if r is not None else None
+        if e is None:
+            e = tab.get((l, None, None))
+        lk = 0 if e is None or e[1] is None else enc(e[1])
+        out.append('    (%d, 0, %d, %d, %d), // %s' % (enc(l), 0 if r is None else enc(r), d, lk, name))
+    out.append('];')
     return '\n'.join(out) + '\n'
 
 
